@@ -192,7 +192,7 @@ fn vm_cases(s: &mut Session, cr: &mut Crafter, rng: &mut Rng) {
     }
     s.mark_nontrivial();
     s.begin_case("vmess-client:binding");
-    for variant in 0..4 {
+    for variant in 0..8 {
         let c = s.fresh("c");
         s.run(&format!("vm.client {} uuid={} cipher=aes-128-gcm cmd=tcp addr={}", c, uuid, addr));
         let Some(req) = encode_all(s, &c, &[b"ping".to_vec()]) else { return };
@@ -208,10 +208,22 @@ fn vm_cases(s: &mut Session, cr: &mut Crafter, rng: &mut Rng) {
             3 => iv[5] ^= 0x80,
             _ => {}
         }
-        let resp = spec(s, cr, &format!("craft.vm.resp reqkey={} reqiv={} header={}", hex(&key16), hex(&iv), hex(&[v, 0x1d, 0, 0])));
+        // 4..: headers of other lengths sealed under the right keys — one without any byte to compare carries no
+        // authentication byte and must be refused; longer ones are judged by their first byte
+        let header: Vec<u8> = match variant {
+            4 => vec![],
+            5 => vec![v],
+            6 => vec![v.wrapping_add(7)],
+            7 => vec![v, 0x1d, 0, 0, 9, 9],
+            _ => vec![v, 0x1d, 0, 0],
+        };
+        let resp = spec(s, cr, &format!("craft.vm.resp reqkey={} reqiv={} header={}", hex(&key16), hex(&iv), if header.is_empty() { "-".to_owned() } else { hex(&header) }));
         let Some(resp) = unhex(&resp) else { return };
         let d = feed_all(s, &c, &[resp], false);
-        if d.err != (variant != 0) {
+        let want_err = !matches!(variant, 0 | 5 | 7);
+        if d.panic {
+            s.oracle_fail("vmess-client:binding", &format!("response header variant {} made the client panic", variant));
+        } else if d.err != want_err {
             s.oracle_fail("vmess-client:binding", &format!("response header variant {} was {}", variant, if d.err { "rejected" } else { "accepted" }));
         }
     }
